@@ -28,7 +28,27 @@ def harness_extra():
         pass
     if not incs:
         incs = ["/usr/include/hdf5/serial", "/usr/lib/x86_64-linux-gnu/openmpi/include"]
-    return ["-DOMPI_SKIP_MPICXX"] + ["-I" + p for p in incs] + [os.path.join(vlib.REPO, "src", s) for s in SOURCES]
+    flags = ["-DOMPI_SKIP_MPICXX"] + ["-I" + p for p in incs]
+    # the real .cpp files are recompiled from the current tree on every run, in parallel, with
+    # exactly the flags vlib.build_harness uses for the harness itself; the objects are linked in
+    from concurrent.futures import ThreadPoolExecutor
+    objdir = os.path.join(vlib.BUILD, "c06_obj")
+    os.makedirs(objdir, exist_ok=True)
+    cfg = os.path.join(vlib.FULL, "src")
+    base = ["g++", "-std=c++11", "-O1", "-g", "-ffp-contract=off", "-Wno-cpp", "-fopenmp", "-D" + vlib.GUARD,
+            "-I" + os.path.join(vlib.REPO, "src"), "-I" + cfg] + flags
+
+    def cc(src):
+        obj = os.path.join(objdir, src.replace(".cpp", ".o"))
+        rc, out = vlib.sh(base + ["-c", os.path.join(vlib.REPO, "src", src), "-o", obj])
+        return src, obj, rc, out
+    with vlib.Lock("c06obj"):
+        with ThreadPoolExecutor(max_workers=len(SOURCES)) as ex:
+            res = list(ex.map(cc, SOURCES))
+    for src, obj, rc, out in res:
+        if rc != 0:
+            raise vlib.HarnessBuildError("c06 (%s)" % src, out)
+    return flags + [obj for _, obj, _, _ in res]
 
 
 # ----------------------------------------------------------------------------- generators
@@ -294,6 +314,24 @@ def gen_temp_gminus(rng):
     return "tempxspec " + " ".join(str(B(v)) for v in sc) + " %d " % rng.choice([1, 2, 3, 5]) + " ".join(sp)
 
 
+def gen_bal(rng):
+    """one evaluation of compute_cooling_and_heating_balance: the parameters of a temperature
+    update, evaluated at a temperature 1e2..1e6 K (the iteration leaves 1e2..1e5)"""
+    t = gen_temp(rng)
+    w = t.split()
+    tidx = 4 if w[0] == "tempxraw" else 3
+    w[tidx] = str(B(logu(rng, 2, 6) if rng.random() < 0.8 else gen_T(rng)))
+    if rng.random() < 0.3:                       # cosmic ray heating on (with/without scale height)
+        w[tidx + 8] = str(B(rng.choice([1.0, 1e-3, 100.0])))
+    if w[0] == "tempspec":
+        w[0] = "balspec"
+    elif w[0] == "tempxraw":
+        w[0] = "balxraw"
+    else:
+        return gen_bal(rng)
+    return " ".join(w)
+
+
 def force_transition(rng, raw_op):
     """inside a history: sometimes switch the radiation off (exactly zero flux), make the cell a
     vacuum or drop the flux below the jH < 1e-20 shortcut, so that consecutive updates take
@@ -344,6 +382,7 @@ def cmp(a, b, op):
 
 REQUIRED = ["h0-b0", "h0-b1", "h0-b2", "met-ne+", "met-ne0", "hhe-it0", "hhe-it1to5", "hhe-it6to10",
             "cell-t0", "cell-t1", "cell-t2-ne+", "cell-t3-ne+", "cell-t3-ne0",
+            "bal-ne+", "bal-ne0", "bal-ne+-cr",
             "temp-t0-special", "temp-t1-special", "temp-t2-low", "temp-t2-cap", "temp-t2-mid", "temp-t2-noiter"]
 
 
@@ -353,6 +392,8 @@ def run(ctx):
         "theorems are about exact real arithmetic (x/0 = 0, sqrt of a negative = 0 in Lean); every quotient/root theorem carries the hypothesis under which this agrees with IEEE; rounding is bounded only empirically (rel 1e-10 agreement of the Float run with the C++)",
         "hHe_iterate_range_partial assumes ch >= 0 in the iteration body (forced by the proof); that the shipped tables keep ch >= 0, that the H/He fixed point converges within 20 iterations and that calculate_temperature never aborts are NOT theorems: they are searched on the implementation (hhe/cell/temp ops, aborts caught in a forked child)",
         "h0_antitone_J / h0_monotone_nalpha hold within each branch of the code and across the branch switch bb = 1e-10 only up to the relative jump 2/C <= 5.1e-11 (exact monotonicity is false there: h0_switch_not_antitone); the oracle on the implementation allows 1e-9 relative",
+        "hHe_solve_range_checked / temperature_model_state_checked rest on the premise flag offDom being false; the flag is evaluated by the bit-identical Float run of the model on every hhe and bal case (evidence: searched_not_proved.premise_off_in_domain, expected 0); a direct balance evaluation with n = 0 (never made by calculate_temperature) is counted as outside the domain",
+        "LineCoolingData::get_cooling is an uninterpreted function in the balance model; its value and the rates at each temperature are produced by the real classes in `c06 --prep` (the harness re-derives the arguments ne/abundances with the real static functions; the bal answers compare them with the model's)",
         "temperature_range: balance function uninterpreted; needs minimum ionized temperature <= 30000 K; when the loop body never runs (epsilon >= 1 or maximum iterations 0) the initial guess (> 4000 K) is returned, so the lower bound is min(T_min_ionized, initial guess)",
         "metals_range assumes n_e > 0 and positive recombination rates (positive denominators); n_e = 0 is excluded by the guard `if (ne > 0.)` of calculate_ionization_state (exercised by the cell ops); compute_cooling_and_heating_balance still evaluates the metals with n_e = 0 internally (NaN inside, masked by the h0 == 1 reset) — only the final cell state is checked",
         "independence of the previous cell state: proved in the model only for calculate_temperature w.r.t. the stored coolant fractions (cell_output_independent_of_previous_state); for calculate_ionization_state the model has no previous-state argument (trivial), so that every C++ branch assigns every fraction rests on the re-used-cell vs fresh-sentinel-cell oracle of the correspondence run",
@@ -369,6 +410,7 @@ def run(ctx):
     raw += [gen_h0m(rng) for _ in range(1500 * nb)]
     raw += [gen_met(rng) for _ in range(1200 * nb)]
     raw += [gen_hhe(rng) for _ in range(2500 * nb)]
+    raw += [gen_bal(rng) for _ in range(1000 * nb)]
     # `cell` / `temp` updates come as HISTORIES on one re-used cell: newcell, then 3-6 updates
     # (hard field -> zero flux -> soft field -> vacuum -> ...); the harness requires after every
     # update that the re-used cell equals a fresh sentinel-filled cell given the same inputs
@@ -404,7 +446,7 @@ def run(ctx):
     exact = 0
     per = {}
     srch = {"aborts_in_domain": 0, "aborts_outside_domain": 0, "hhe_iterations_11_to_20_in_domain": 0,
-            "hhe_iterations_11_to_20_outside_domain": 0, "ch_negative_in_domain": 0, "ch_negative_outside_domain": 0}
+            "hhe_iterations_11_to_20_outside_domain": 0, "premise_off_in_domain": 0, "premise_off_outside_domain": 0}
     for r, op, a, b in zip(raw, full, impl, model):
         ctx.count()
         kind = op.split(" ", 1)[0]
@@ -418,16 +460,19 @@ def run(ctx):
             p[1] += 1
         tag = b.split(" #")[1] if " #" in b else "none"
         ctx.branch(tag)
-        dom = "outside_domain" if (kind.endswith("x") or (kind == "abort" and op.split()[1].startswith("tempx"))) else "in_domain"
+        # the callers never evaluate the balance for a vacuum cell (n = 0 is special-cased in
+        # calculate_temperature): a direct `bal` evaluation with n = 0 is an excluded point
+        vacuum_bal = kind == "bal" and op.split(" ", 3)[2] == "0"
+        dom = "outside_domain" if (kind.endswith("x") or vacuum_bal or (kind == "abort" and op.split()[1].startswith(("tempx", "balx")))) else "in_domain"
         if "abort" in tag:
             srch["aborts_" + dom] += 1
         if "it11to20" in tag:
             srch["hhe_iterations_11_to_20_" + dom] += 1
-        if "chneg" in tag:
-            srch["ch_negative_" + dom] += 1
+        if "offdom" in tag:
+            srch["premise_off_" + dom] += 1
         trivial = tag in ("h0-b0", "cell-t0", "cell-t1", "temp-t0-special", "hhe-it0", "none")
         ctx.distinct(r, nontrivial=not trivial)
-    ctx.cov["bit_exact_rate"] = round(exact / max(1, len(full)), 6)
+    ctx.cov["bit_exact_rate"] = round(exact / max(1, sum(v[0] for v in per.values())), 6)
     ctx.cov["bit_exact_per_op"] = {k: "%d/%d" % (v[1], v[0]) for k, v in sorted(per.items())}
     hist = ctx.cov["branch_histogram"]
     missing = [t for t in REQUIRED if not any(k == t or k.startswith(t) for k in hist)]
@@ -439,7 +484,9 @@ def run(ctx):
     if missing:
         ctx.notes.append("insufficient evidence (not a violation): branches never taken: " + ", ".join(missing))
     ctx.cov["searched_not_proved"] = srch
-    for k in ("h0 ", "h0m ", "met ", "hhe ", "cell ", "temp "):
+    if srch["premise_off_in_domain"]:
+        ctx.notes.append("checked premise of hHe_solve_range_checked raised inside the domain on %d cases (not a violation of C06 by itself: the range oracles decide; the theorem does not cover these inputs)" % srch["premise_off_in_domain"])
+    for k in ("h0 ", "h0m ", "met ", "hhe ", "bal ", "cell ", "temp "):
         for op, a in zip(full, impl):
             if op.startswith(k):
                 ctx.sample({"op": op[:300], "impl": a[:300]}, cap=12)
@@ -452,6 +499,6 @@ def replay(ctx, path):
 
 MANIFEST = dict(
     category="proof",
-    text="Lean theorems over the reals about the generic-arithmetic model of IonizationStateCalculator / TemperatureCalculator: hydrogen closed form solves x^2-(2+C)x+1=0 (h0_solves_balance), lies in [1e-14,1] for every input (h0_range), is antitone in J and monotone in n*alpha (h0_antitone_J, h0_monotone_nalpha; exact within a branch, up to 5.1e-11 relative across the Taylor switch, where strict monotonicity is refuted by h0_switch_not_antitone); every metal fraction in [0,1] and stage sums <= 1 for non-negative rates and positive denominators (metals_range); one H/He loop body maps (0,1)x[0,1] into [0,1]^2 when ch >= 0 (hHe_iterate_range_partial); for EVERY balance function, tolerance and iteration count the returned temperature is 500 K or in [min(T_min, initial guess), 30000 K] (temperature_range); the result of calculate_temperature does not depend on the coolant fractions stored in the cell before the call (cell_output_independent_of_previous_state). The same definitions instantiated at Float agree with the real static functions and calculate_temperature (shipped tables) to rel 1e-10; oracles on the implementation: finiteness, ranges, stage sums, T bounds, abort (forked child), H-only balance residual and monotonicity, and after every update of a 3-6 step history on ONE re-used cell: all 14 fractions and the temperature equal those of a fresh sentinel-filled (0.123) cell given the same inputs (outputs not reassigned on some branch).",
-    note="PARTIAL: convergence of the H/He fixed point within 20 iterations (no cmac_error), ch >= 0 for the shipped tables and absence of aborts in calculate_temperature are searched, not proved. Trusted: Lean kernel + 3 axioms; hand model (tied by the Float correspondence); exact-arithmetic theorems (rounding only bounded empirically); line cooling / heating / rate tables enter as values computed by the real classes; cmac_assert compiled out.",
+    text="Lean theorems over the reals about the generic-arithmetic model of IonizationStateCalculator / TemperatureCalculator: hydrogen closed form solves x^2-(2+C)x+1=0 (h0_solves_balance), lies in [1e-14,1] for every input (h0_range), is antitone in J and monotone in n*alpha (h0_antitone_J, h0_monotone_nalpha; exact within a branch, up to 5.1e-11 relative across the Taylor switch, where strict monotonicity is refuted by h0_switch_not_antitone); every metal fraction in [0,1] and stage sums <= 1 for non-negative rates and positive denominators (metals_range); one H/He loop body maps (0,1)x[0,1] into [0,1]^2 when ch >= 0 (hHe_iterate_range_partial); for EVERY balance function, tolerance and iteration count the returned temperature is 500 K or in [min(T_min, initial guess), 30000 K] (temperature_range); compute_cooling_and_heating_balance is modelled statement by statement (only LineCoolingData::get_cooling and the rate tables enter as values): heating and cooling >= 0 for every input (balance_nonneg), line-cooling abundances in [0, A_X] (abund_range), and for every balance function whose evaluations are physical the cell state after calculate_temperature has H/He fractions in [0,1] and coolants reset or physical through every special case, clamp and reset (temperature_state_physical; for the modelled balance: temperature_model_state_physical / _checked, balModel_ok); the whole H/He solve returns fractions in [0,1] whenever the premise flag offDom computed by the model run is false (hHe_solve_range_checked); the result of calculate_temperature does not depend on the coolant fractions stored in the cell before the call (cell_output_independent_of_previous_state). The same definitions instantiated at Float agree with the real static functions and calculate_temperature (shipped tables) to rel 1e-10; oracles on the implementation: finiteness, ranges, stage sums, T bounds, abort (forked child), H-only balance residual and monotonicity, and after every update of a 3-6 step history on ONE re-used cell: all 14 fractions and the temperature equal those of a fresh sentinel-filled (0.123) cell given the same inputs (outputs not reassigned on some branch).",
+    note="PARTIAL: that the H/He premise flag (0 < h0old < 1 and ch >= 0 in every executed body) stays false on the whole domain is checked on every generated case (count reported, 0 in domain), not proved; convergence of the H/He fixed point within 20 iterations (no cmac_error), ch >= 0 for the shipped tables and absence of aborts in calculate_temperature are searched, not proved. Trusted: Lean kernel + 3 axioms; hand model (tied by the Float correspondence); exact-arithmetic theorems (rounding only bounded empirically); line cooling / heating / rate tables enter as values computed by the real classes; cmac_assert compiled out.",
     technique="Lean 4 proofs (field_simp / nlinarith / sqrt lemmas, induction over the iteration count with an uninterpreted balance function) + Float differential correspondence against the real C++ with forked-child abort capture")
